@@ -278,3 +278,229 @@ def r06_10(ctx):
                     f"{sorted(l[2:] for l in le) or 'no named limit'}: emitting into a buffer of the declared length overruns it for long quotes", body=hb[0])
         # both subtract the same header terms: buffer_len = min(8 + ip + data, LIMIT) ; emit cut = min(data, LIMIT - 8 - ip)
         ctx.ok(('icmpv6', 'scanned'))
+
+
+@rule('R03.8', ['C03', 'C11'], floor=1, clause='a value taken from a received message is used as a divisor only behind a test that it is not zero (MLD Maximum Response Code)')
+def r03_8(ctx):
+    F = ctx.F
+    n = 0
+    for k, b in sorted(F.bodies.items()):
+        if not (b.file or '').startswith(('src/iface/', 'src/socket/')) or '::test' in k:
+            continue
+        for bi, bl in enumerate(b.blocks):
+            if bl['cl']:
+                continue
+            t = bl['t']
+            if not (t[0] == 'assert' and t[3].get('k') in ('div0', 'rem0')):
+                continue
+            c = strip(simplify(F.origin.operand(b, t[1], bi, len(bl['s']))))
+            if not (c[0] == 'bin' and c[1] == 'Eq' and const_int(simplify(c[3])) == 0):
+                continue
+            d = simplify(c[2])
+            if const_int(d) is not None:
+                continue
+            ls = leafs(d)
+            if not any(l.startswith('F:wire::') or (l.startswith('D:') and 'wire' in l) for l in ls) and not any(l.startswith('F:wire') for l in ls):
+                # not a wire-representation field: cwnd, capacities ... (covered by their own rules)
+                if not any('Repr' in l for l in ls):
+                    continue
+            n += 1
+
+            def nonzero(f, d=d):
+                if f[0] != 'rel':
+                    return False
+                a, c_ = simplify(f[2]), const_int(simplify(f[3]))
+                if a == d and c_ is not None:
+                    return (f[1] == 'Gt' and c_ >= 0) or (f[1] == 'Ne' and c_ == 0) or (f[1] == 'Ge' and c_ >= 1)
+                return False
+            bad = unguarded(F, b, [bi], nonzero)
+            fnm = k.rsplit('::', 1)[-1]
+            if bad:
+                ctx.bad(f"{fnm}|division-by-received-value", f"{k}: `% {show(d)[:40]}` / division by a field of the received message without a non-zero test: "
+                        "a message carrying 0 there panics Interface::poll (also in release builds)", body=b, bb=bi, line=t[5], path=bad[0][1])
+            else:
+                ctx.ok((fnm, 'divisor-nonzero'), sample=dict(fn=fnm, divisor=show(d)[:40], guard='> 0'))
+    ctx.need(n >= 1, "divisions by received values in iface/socket code")
+
+
+@rule('R04.7', ['C04', 'C01'], floor=1, clause='data already queued for the application stays readable in every state: may_recv() answers false only when the receive buffer is empty')
+def r04_7(ctx):
+    F = ctx.F
+    b = ctx.method(SOCK, 'may_recv')
+    falses = [bi for bi, bl in enumerate(b.blocks) if not bl['cl'] for s in bl['s']
+              if s[0] == 'a' and s[1] == [0, []] and s[2][0] == 'use' and s[2][1][0] == 'k' and s[2][1][2] is False]
+    ctx.need(falses, "`false` result in tcp::Socket::may_recv")
+    empty = lambda f: f[0] == 'bool' and f[2] is False and is_call(strip(f[1]), 'can_recv')
+    bad = unguarded(F, b, falses, empty)
+    if bad:
+        ctx.bad("may_recv|false-with-data", "may_recv() can answer false in some state although data is queued (can_recv() not consulted): recv reports the stream as "
+                "finished while octets that were acknowledged to the peer are still undelivered", body=b, bb=bad[0][0], path=bad[0][1])
+    else:
+        ctx.ok(('may_recv', 'false-only-when-empty'), sample=dict(fn='may_recv', false_only_behind='!can_recv()'))
+
+
+@rule('R05.3b', ['C05', 'C04'], floor=1, clause='ACKs returned directly from process() advertise the scaled window, like every other non-SYN segment')
+def r05_3b(ctx):
+    F = ctx.F
+    b = ctx.method(SOCK, 'ack_reply')
+    R = 'wire::tcp::Repr'
+    found = False
+    for bi, bl in enumerate(b.blocks):
+        if bl['cl']:
+            continue
+        for si, s in enumerate(bl['s']):
+            if s[0] == 'a':
+                np_ = b.norm(s[1])
+                if np_[1] and np_[1][-1][0] == 'f' and np_[1][-1][1] == 'window_len' and np_[1][-1][2] == R:
+                    found = True
+                    o = simplify(F.origin.rvalue(b, s[2], bi, si, 0, None))
+                    if is_call(o, 'scaled_window'):
+                        ctx.ok(('ack_reply', 'scaled'), sample=dict(fn='ack_reply', window_len='scaled_window()'))
+                    else:
+                        ctx.bad("ack_reply|window|unscaled", f"ack_reply advertises window_len = {show(o)[:70]} (not scaled_window()): with window scaling negotiated the peer "
+                                "reads it as 2^shift times larger and overruns the receive buffer's window", body=b, bb=bi)
+    ctx.need(found, "window_len store in ack_reply")
+
+
+@rule('R05.2b', ['C05'], floor=1, clause='the peer\'s MSS option is honoured on a simultaneous open too: in SYN-SENT a bare SYN (no ACK) reaches the remote_mss update')
+def r05_2b(ctx):
+    F = ctx.F
+    from .c17 import partition_run
+    b = ctx.method(SOCK, 'process')
+    ws = [w['bb'] for w in F.field_writes() if w['fn'] == b.key and w['kind'] == 'store' and w['adt'] == SOCK and w['field'] == 'remote_mss']
+    ctx.need(ws, "remote_mss stores in tcp::Socket::process")
+    r = partition_run(ctx, b, 'SynSent', 'Syn', 'None')
+    if feasible_sites(b, ws, r.edge_ok()):
+        ctx.ok(('remote_mss', 'simultaneous-open'), sample=dict(state='SynSent', segment='SYN without ACK', effect='remote_mss updated'))
+    else:
+        ctx.bad("process|remote_mss|simultaneous-open", "in SYN-SENT a bare SYN (simultaneous open) no longer reaches the remote_mss update: the peer's announced MSS is "
+                "ignored and segments larger than it are sent", body=b, bb=ws[0])
+
+
+@rule('R10.5', ['C10', 'C11', 'C16'], floor=1, clause='a Neighbor Advertisement (whose source is the solicited target) is only built when the target is one of the interface\'s own addresses')
+def r10_5(ctx):
+    F = ctx.F
+    b = ctx.method(IFI, 'process_ndisc')
+    ND = 'wire::ndisc::Repr'
+    sites = [bi for bi, si, var in agg_sites(b, ND, variants=['NeighborAdvert'])]
+    ctx.need(sites, "NeighborAdvert construction in process_ndisc")
+    own = lambda f: f[0] == 'bool' and f[2] is True and is_call(strip(f[1]), 'has_ip_addr') and any('target_addr' in l for l in leafs(f[1]))
+    bad = unguarded(F, b, sites, own)
+    if bad:
+        ctx.bad("process_ndisc|advert-for-foreign-target", "a Neighbor Advertisement can be sent for a target address the interface does not own (its IPv6 source is that "
+                "foreign address): answering solicitations for other hosts in the same solicited-node group", body=b, bb=bad[0][0], path=bad[0][1])
+    else:
+        ctx.ok(('process_ndisc', 'advert-own-target'), sample=dict(fn='process_ndisc', guard='has_ip_addr(target_addr)'))
+
+
+@rule('R11.8', ['C11', 'C10'], floor=2, clause='a subnet has no broadcast address only for prefix lengths 31 and 32 (a /30 still has one, and traffic from or to it is treated as broadcast)')
+def r11_8(ctx):
+    F = ctx.F
+    b = ctx.method('wire::ipv4::Cidr', 'broadcast')
+    consts = []
+    for bi, bl in enumerate(b.blocks):
+        if bl['cl'] or bl['t'][0] != 'switch':
+            continue
+        t = bl['t']
+        d = simplify(F.origin.operand(b, t[1], bi, len(bl['s'])))
+        if any(l.endswith('.prefix_len') for l in leafs(d)):
+            if t[4] != 'bool':
+                consts += [('Eq', int(v)) for v, _ in t[2]]
+        for tb, lab, f in cond_facts(F, b, bi):
+            if f[0] == 'rel' and any(l.endswith('.prefix_len') for l in leafs(f[2])):
+                k = const_int(simplify(f[3]))
+                if k is not None and f[1] in ('Eq', 'Ge', 'Gt', 'Le', 'Lt'):
+                    consts.append((f[1], k))
+    eqs = sorted({k for op, k in consts if op == 'Eq'})
+    others = [c for c in consts if c[0] != 'Eq']
+    ctx.need(consts, "prefix_len tests in Ipv4Cidr::broadcast")
+    if eqs == [31, 32] and not others:
+        ctx.ok(('broadcast', '31'), sample=dict(fn='Ipv4Cidr::broadcast', none_for='prefix_len 31 | 32'))
+        ctx.ok(('broadcast', '32'))
+    else:
+        ctx.bad("Ipv4Cidr::broadcast|prefix-test", f"Ipv4Cidr::broadcast decides 'no broadcast address' with {sorted(set(consts))} instead of prefix_len == 31 | 32: "
+                "the broadcast address of some subnets is treated as a unicast host (replies to / connections from it)", body=b)
+
+
+@rule('R18.8', ['C18', 'C13'], floor=1, clause='server-supplied T1 and T2 are used only when T1 < T2 < lease; otherwise the defaults are taken (a T1 after T2 makes the reported deadline precede any action)')
+def r18_8(ctx):
+    F = ctx.F
+    D = 'socket::dhcpv4::Socket'
+    DR = 'wire::dhcpv4::Repr'
+    b = ctx.method(D, 'parse_ack')
+    # sites: tuples (renew, rebind) built directly from both option values
+    sites = []
+    for bi, bl in enumerate(b.blocks):
+        if bl['cl']:
+            continue
+        for si, s in enumerate(bl['s']):
+            if s[0] == 'a' and s[2][0] == 'agg' and s[2][1].get('k') == 'tuple' and len(s[2][2]) == 2:
+                if not all(is_place_op(o) and b.locals[o[1][0]]['ty'] == 'time::Duration' for o in s[2][2]):
+                    continue        # the match scrutinee (a pair of Options), not a (T1, T2) result
+                a0 = leafs(F.origin.operand(b, s[2][2][0], bi, si))
+                a1 = leafs(F.origin.operand(b, s[2][2][1], bi, si))
+                if f"F:{DR}.renew_duration" in a0 and f"F:{DR}.rebind_duration" in a1 and f"F:{DR}.rebind_duration" not in a0:
+                    sites.append(bi)
+    ctx.need(sites, "(T1, T2) taken from the ACK in parse_ack")
+
+    def lt(fa, fb):
+        def p(f):
+            if f[0] != 'rel' or f[1] not in ('Lt',):
+                return False
+            x, y = leafs(f[2]), leafs(f[3])
+            return f"F:{DR}.{fa}" in x and f"F:{DR}.{fb}" not in x and f"F:{DR}.{fb}" in y and f"F:{DR}.{fa}" not in y
+        return p
+    for s_ in sites:
+        b1 = unguarded(F, b, [s_], lt('renew_duration', 'rebind_duration'))
+        b2 = unguarded(F, b, [s_], lt('rebind_duration', 'lease_duration'))
+        if b1 or b2:
+            ctx.bad("parse_ack|t1-t2-order", "parse_ack accepts the server's T1/T2 without T1 < T2 < lease: with T1 after T2 poll_at reports the rebind instant while nothing "
+                    "is sent before the later renew instant (the event loop spins), or timers fall after the lease end", body=b, bb=s_, path=(b1 or b2)[0][1])
+        else:
+            ctx.ok(('parse_ack', 't1<t2<lease'), sample=dict(fn='parse_ack', guard='renew < rebind && rebind < lease'))
+
+
+@rule('R13.9', ['C13', 'C02'], floor=1, clause='dispatch decides to send a keep-alive from the timer alone (the same state poll_at reports), not additionally from the keep-alive option')
+def r13_9(ctx):
+    F = ctx.F
+    TIMER = 'socket::tcp::Timer'
+    d = ctx.method(SOCK, 'dispatch')
+    ska = ctx.method(TIMER, 'should_keep_alive')
+    sites = [x[0] for x in d.calls() if d.callee_name(x[1]) == ska.key]
+    ctx.need(sites, "should_keep_alive calls in dispatch")
+    mentions_option = lambda f: any(l == f"F:{SOCK}.keep_alive" for n_ in f[1:] if isinstance(n_, tuple) for l in leafs(n_))
+    ge = guard_edges(F, d, mentions_option)
+    for s_ in sites:
+        if ge and not cut_sites(d, [s_], ge):
+            ctx.bad("dispatch|keep-alive|extra-guard", "the keep-alive decision in dispatch is additionally guarded by the keep_alive option while poll_at reports the timer's "
+                    "deadline regardless: after keep-alive is switched off the armed deadline stays in the past and nothing clears it (poll_at = now forever)", body=d, bb=s_)
+        else:
+            ctx.ok(('dispatch', 'keep-alive-from-timer', s_), sample=dict(fn='dispatch', decision='timer.should_keep_alive(now)'))
+
+
+@rule('R17.7', ['C17', 'C11'], floor=3, clause='a segment is classified SYN, FIN or RST only when none of the other two flags is set (contradictory flag combinations are rejected by the parser)')
+def r17_7(ctx):
+    F = ctx.F
+    R = 'wire::tcp::Repr'
+    CT = 'wire::tcp::Control'
+    b = ctx.method(R, 'parse')
+    need = {'Syn': ('fin', 'rst'), 'Fin': ('syn', 'rst'), 'Rst': ('syn', 'fin'), 'None': ('syn', 'fin', 'rst'), 'Psh': ('syn', 'fin', 'rst')}
+    sites = {}
+    for bi, bl in enumerate(b.blocks):
+        if bl['cl']:
+            continue
+        for si, s in enumerate(bl['s']):
+            if s[0] == 'a' and s[2][0] in ('use', 'agg'):
+                o = strip(simplify(F.origin.rvalue(b, s[2], bi, si, 0, None)))
+                if o[0] == 'variant' and o[1].startswith(CT + '::') and b.locals[s[1][0]]['ty'].endswith('Control') and s[1][1] == []:
+                    sites.setdefault(o[1].rsplit('::', 1)[-1], []).append(bi)
+    ctx.need(len(sites) >= 4, f"control classification in tcp::Repr::parse (found {sorted(sites)})")
+    for var, blocks in sorted(sites.items()):
+        for flag in need.get(var, ()):
+            clear = lambda f, flag=flag: f[0] == 'bool' and f[2] is False and is_call(strip(f[1]), '::' + flag) and strip(f[1])[1].startswith('wire::tcp::Packet')
+            bad = unguarded(F, b, blocks, clear)
+            if bad:
+                ctx.bad(f"tcp::Repr::parse|control|{var}|{flag}", f"a segment with the {flag.upper()} flag set can be classified as Control::{var}: contradictory flag combinations "
+                        "(e.g. SYN+RST) are handed to the socket as an ordinary segment and advance its state", body=b, bb=bad[0][0], path=bad[0][1])
+            else:
+                ctx.ok(('control', var, flag), sample=dict(control=var, requires=f"!{flag}()"))
